@@ -25,7 +25,7 @@ TECHNIQUE = "runtime monitoring: brute-force enumeration of the declared mapspac
 
 def gen_cases(tier, seed):
     rnd = random.Random(f"C01-{seed}")
-    n = 20 if tier == "quick" else 90
+    n = 20 if tier == "quick" else 60
     return [{"class": d["class"], "desc": d, "budget": 2500 if tier == "quick" else 20000} for d in mp.gen_small_specs(rnd, n, tier)]
 
 
